@@ -29,7 +29,7 @@
      DeliveredAfterError / ErrorNotLatched
      SegmentationDependent   final outcome differs from the group's first run
      RetainedTooMuch / InflateUnbounded   memory bound max_msg_size + K
-     InflateInput / CompressedMessageNotInflated   RFC 7692 7.2.2
+     InflateInput / CompressedMessageNotInflated / InflateTruncated   RFC 7692 7.2.2
    Refinement (drift only): retained, fragment-pause, msg-size, inflate-crosscheck.
 
    Deviation mode (cfg.devs = names of rules with an OPEN known finding): a run in which
@@ -46,7 +46,7 @@ C(t) == [compress |-> Cfg(t).compress, decode |-> Cfg(t).decode, max |-> Cfg(t).
 Strm(t) == Cfg(t).stream
 Devs(t) == {Cfg(t).devs[i] : i \in 1..Len(Cfg(t).devs)}
 
-NoCall == [has |-> FALSE, inp |-> <<>>, ok |-> FALSE, outlen |-> 0, utf8 |-> FALSE, out |-> <<>>]
+NoCall == [has |-> FALSE, inp |-> <<>>, ok |-> FALSE, outlen |-> 0, utf8 |-> FALSE, out |-> <<>>, full |-> TRUE]
 None == <<"none">>
 
 TInit ==
@@ -63,6 +63,7 @@ RECURSIVE Run(_, _, _, _, _, _)
 RunK(st, avail, e, cf0, base, rd) ==
     IF st.out.k = "badinfl" THEN [r |-> st.r, rd |-> rd, bad |-> "InflateInput", dev |-> ""]
     ELSE IF st.out.k = "noinfl" THEN [r |-> st.r, rd |-> rd, bad |-> "CompressedMessageNotInflated", dev |-> ""]
+    ELSE IF st.out.k = "truncinfl" THEN [r |-> st.r, rd |-> rd, bad |-> "InflateTruncated", dev |-> ""]
     ELSE IF st.out.k = "fail" /\ st.r.why \in Devs(tid) THEN [r |-> st.r, rd |-> rd, bad |-> "", dev |-> st.r.why]
     ELSE Run(st.r, avail, e, cf0, base, IF st.out.k = "msg" THEN Append(rd, st.out.m) ELSE rd)
 
@@ -98,6 +99,10 @@ Pre(e) ==
 
 Msgs(e) == [i \in 1..Len(e.msgs) |-> [t |-> e.msgs[i].t, data |-> e.msgs[i].data, code |-> e.msgs[i].code]]
 
+EarlyHeader(rr, avail, code) ==
+    /\ rr.ph = "H" /\ avail - rr.pos = 1 /\ code = 1002
+    /\ FirstByteBad(Strm(tid)[rr.pos + 1], rr.inMsg, C(tid).compress)
+
 Clause(p, q, cm, e, avail, over, ta1, cf2, outcome) ==
     LET c == C(tid)
         K == Cfg(tid).K
@@ -110,7 +115,9 @@ Clause(p, q, cm, e, avail, over, ta1, cf2, outcome) ==
     ELSE IF ta1 THEN ""
     ELSE IF q.bad # "" THEN q.bad
     ELSE IF cm # q.rd THEN Mismatch(cm, q.rd, q.r, e, p.cf)
-    ELSE IF newFail /\ ~Failed(q.r) THEN "SpuriousError"
+    \* (rejecting on the first header byte alone is as good as waiting for the second one)
+    ELSE IF newFail /\ ~Failed(q.r) /\ ~EarlyHeader(q.r, avail, e.exc) THEN "SpuriousError"
+    ELSE IF newFail /\ ~Failed(q.r) THEN ""
     ELSE IF newFail /\ e.exc \notin q.r.failed THEN "WrongCloseCode"
     ELSE IF c.max > 0 /\ e.retained > c.max + K THEN "RetainedTooMuch"
     ELSE IF c.max > 0 /\ \E i \in (e.c0 + 1)..e.c1 : Cfg(tid).calls[i].outlen > c.max + K THEN "InflateUnbounded"
